@@ -18,7 +18,8 @@ Definition x_char_issues := char_issues x_isprint.
 Definition x_check_capitalization (fixed : bool) := check_capitalization upper_ascii lower_ascii fixed.
 Definition x_check_required := check_required lower_ascii.
 Definition x_check_unique := check_unique lower_ascii.
-(* fixed = true: the code as it is now; fixed = false: before the repairs of C13-F2, F3, F4 *)
+(* fixed = true: the code as it is (fix commits 02171e0, bb02e3e, 9d4df4f in /repo); fixed = false: the behaviour
+   before them (records of the repaired defects C13-F2, F3, F4) *)
 Definition x_verdict (fixed : bool) :=
   verdict x_isalpha x_isprint lower_ascii upper_ascii lower_ascii fixed no_rules no_rules no_rules.
 Definition x_load_schema_version (fixed : bool) := load_schema_version x_isalpha fixed.
